@@ -28,6 +28,11 @@ func init() {
 
 func (c09) ID() string { return "C09" }
 
+// EvalFeatures names the counters of judged executions.
+func (c09) EvalFeatures() []string {
+	return []string{"executions-in-process", "executions-in-fresh-processes"}
+}
+
 func (c09) Cases(tier string) int {
 	if tier == "thorough" {
 		return 30000
